@@ -4,6 +4,7 @@ R16.1  decoding failures become ValueError: every exceptional exit of structure_
 R16.2  every descent of DataclassSerializer is guarded by the visited set (delegations to cattrs are unguarded)  [finding]
 R16.3  None stripping / dict conversion on every return path of the serialiser
 R16.4  the post-processor recurses with itself on containers (lists, dict values) so that every nested value is processed
+R16.10 the None-stripping pass descends into every dict and list (no return of the container as it came in)
 R16.9  no value computed from a class is memoised on that class and read back through an inheriting lookup (getattr/hasattr/attribute)
 R16.8  the raw-dict fallback of union decoding applies to dict[str, Any] only (guard evaluated over {str, other} x {Any, other})
 R3.3/R3.4/R3.5 hook pairs inverse, rename plumbing, recursive registration (shared with C03)
@@ -25,6 +26,7 @@ def run(repo: Repo, rep: Report, tier: str) -> None:
     cv.rule_rename_plumbing(repo, rep, "R16.6")
     cv.rule_recursive_registration(repo, rep, "R16.7")
     rule_class_memo(repo, rep, "R16.9")
+    rule_strip_descends(repo, rep, "R16.10")
     conv = repo.module("core.cattrs_converter")
     # ---------------------------------------------------------------- R16.1
     sfd = conv.functions.get("structure_from_dict")
@@ -369,3 +371,57 @@ def rule_class_memo(repo: Repo, rep: Report, rule: str = "R16.9") -> None:
                           "(its own fields are dropped) - use vars(cls)/cls.__dict__ or a dict keyed by the class", f"{m.relpath}:{rd.lineno}")
     rep.require(n_mod >= 1, f"{rule}: the converter module was not found (anchor)")
     rep.count(f"{rule}:modules", n_mod)
+
+
+# ------------------------------------------------------------------------------------------------ R16.10 None-stripping descends everywhere
+def rule_strip_descends(repo: Repo, rep: Report, rule: str = "R16.10") -> None:
+    """`_remove_none_values` must look inside every container: in its dict and list branches every `return` is built from recursive calls
+    on the members - returning the container as it came in (a 'nothing to strip here' shortcut) leaves the None-valued keys of nested
+    dicts in the output."""
+    utils = repo.module("core.utils")
+    ds = utils.classes.get("DataclassSerializer")
+    fn = ds.methods.get("_remove_none_values") if ds is not None else None
+    if fn is None:
+        raise AnalysisError("anchor vanished: DataclassSerializer._remove_none_values")
+    # a thin alias (`return _strip(obj)`) is followed to the function that does the work
+    for _ in range(2):
+        body = [s for s in fn.node.body if not (isinstance(s, ast.Expr) and isinstance(s.value, ast.Constant))]  # type: ignore[attr-defined]
+        if len(body) == 1 and isinstance(body[0], ast.Return) and isinstance(body[0].value, ast.Call):
+            callee = body[0].value.func
+            name = callee.id if isinstance(callee, ast.Name) else callee.attr if isinstance(callee, ast.Attribute) else None
+            tgt = utils.functions.get(name or "") or (ds.methods.get(name or "") if ds is not None else None)
+            if tgt is not None and tgt is not fn:
+                fn = tgt
+                continue
+        break
+    p = [a for a in fn.params if a not in ("self", "cls")][0]
+    n_br = 0
+    for branch in ("dict", "list"):
+        ifs = [n for n in own_nodes(fn.node) if isinstance(n, ast.If) and any(
+            isinstance(x, ast.Call) and dotted(x.func) == "isinstance" and len(x.args) == 2 and isinstance(x.args[0], ast.Name) and x.args[0].id == p
+            and branch in norm(x.args[1]) for x in ast.walk(n.test))]
+        sub = f"{utils.relpath}:{fn.qualname} {branch} branch"
+        if not ifs:
+            rep.violation(rule, sub, f"{fn.fq}|strip-branch-missing|{branch}", f"no `isinstance({p}, {branch})` branch: {branch} members are not searched for None values", fn.loc())
+            continue
+        n_br += 1
+        rets = [r for st in ifs[0].body for r in ast.walk(st) if isinstance(r, ast.Return)]
+        bare = [r for r in rets if r.value is None or (isinstance(r.value, ast.Name) and r.value.id == p)]
+        recursive = [r for r in rets if r.value is not None and any(
+            isinstance(c, ast.Call) and ((isinstance(c.func, ast.Attribute) and c.func.attr == fn.name) or (isinstance(c.func, ast.Name) and c.func.id == fn.name))
+            for c in ast.walk(r.value))]
+        # a return of a local that was built from recursive calls counts as recursive
+        built = {t.id for st in ifs[0].body for a in ast.walk(st) if isinstance(a, (ast.Assign, ast.AnnAssign, ast.Expr))
+                 for t in ast.walk(a) if isinstance(t, ast.Name) and any(
+                     isinstance(c, ast.Call) and ((isinstance(c.func, ast.Attribute) and c.func.attr == fn.name) or (isinstance(c.func, ast.Name) and c.func.id == fn.name))
+                     for c in ast.walk(a))}
+        other = [r for r in rets if r not in bare and r not in recursive and not (isinstance(r.value, ast.Name) and r.value.id in built)]
+        if bare:
+            rep.violation(rule, sub, f"{fn.fq}|strip-returns-container-unsearched|{branch}",
+                          f"`{norm(bare[0])}` hands the {branch} back without descending into its members: a dict whose own values are all set but that contains a nested dict "
+                          "/ dataclass with None fields keeps those null-valued keys in the serialised output", fn.loc(bare[0]))
+        elif other:
+            rep.error(f"{rule}: cannot evaluate `{norm(other[0])[:60]}` in the {branch} branch of {fn.qualname}")
+        else:
+            rep.ok(rule, sub, "every return is built from recursive calls on the members", fn.loc(ifs[0]))
+    rep.count(f"{rule}:branches", n_br)
